@@ -15,11 +15,15 @@ SdSet == {c \in SdCasesAll : /\ (c.type = "i8" => c.shape \in {<<1100, 1000>>, <
                             /\ (c.layout = "chunk" => Len(c.shape) = 2)}
 HlSet == {[b |-> b, t |-> t, writes |-> w] : b \in {1, 16, 100}, t \in {1, 4, 16},
              w \in {<<<<0, 5000>>>>, <<<<0, 100>>, <<50, 4000>>>>, <<<<0, 2100>>, <<2000, 3000>>, <<100, 1700>>>>}}
-BtSet == {[widths |-> w, blocks |-> b, bits |-> bo] : w \in {<<8>>, <<32>>, <<3, 5, 9, 32>>, <<1, 7, 13, 27>>}, b \in {2, 3},
-             bo \in {<<0, 3>>, <<1, 6, 7>>}}
+\* patch = TRUE: before the write handle is released, some earlier fields are rewritten through bit seeks
+BtSet == {[widths |-> w, blocks |-> b, bits |-> bo, patch |-> pt] : w \in {<<8>>, <<32>>, <<3, 5, 9, 32>>, <<1, 7, 13, 27>>, <<12>>, <<9, 24>>}, b \in {2, 3},
+             bo \in {<<0, 3>>, <<1, 6, 7>>}, pt \in BOOLEAN}
 CpSet == {[coder |-> cd, kind |-> k, n |-> n, pieces |-> p] :
              cd \in {<<"none", 0>>, <<"rle", 0>>, <<"skphuff", 1>>, <<"skphuff", 3>>, <<"deflate", 1>>, <<"deflate", 6>>},
              k \in {"ctr", "runs"}, n \in {4500, 9000, 20000}, p \in {1, 4}}
+NbSet == {[w |-> t[1], signed |-> t[2], start |-> t[3], len |-> t[4], sext |-> t[5], fill |-> t[6], n |-> 4096] :
+             t \in {<<16, FALSE, 11, 10, FALSE, 0>>, <<16, TRUE, 9, 7, TRUE, 0>>, <<32, TRUE, 20, 13, TRUE, 1>>, <<32, FALSE, 31, 32, FALSE, 0>>,
+                    <<8, FALSE, 6, 5, FALSE, 1>>}}
 NoCases == {}
 Emit == CSVWrite("%1$s", <<ToJson([spec |-> "Bulk", steps |-> hist'])>>, IOEnv.GEN_OUT)
 =============================================================================
